@@ -22,7 +22,6 @@ theorem C14_desc_noncommit_pure (mc : Plss.MC) (uid : Nat) (d : DescObj) (kw : D
     (look : Option Str → TRS.TrsDict) (r : DescObj × ParserOut)
     (h : descParse mc uid d kw false look = .ok r) : r.1 = { d with diverged := r.1.diverged } := by
   unfold descParse at h
-  simp only [bind, Except.bind, pure, Except.pure] at h
   split at h
   · cases h
   · simp only [Bool.false_eq_true, if_false] at h
